@@ -621,8 +621,13 @@ func textLine(c hapi.Cmd) []byte {
 	if c.Flag != 0 {
 		args = append(args, "FLAG", fmt.Sprint(c.Flag))
 	}
-	args = append(args, "TIMEOUT", fmt.Sprint(uint32(c.TimeoutFlag)<<16|uint32(c.Timeout)), "EXPRIED", fmt.Sprint(uint32(c.ExpriedFlag)<<16|uint32(c.Expried)),
-		"COUNT", fmt.Sprint(uint32(c.Count)+1), "RCOUNT", fmt.Sprint(uint32(c.Rcount)+1))
+	args = append(args, "TIMEOUT", fmt.Sprint(uint32(c.TimeoutFlag)<<16|uint32(c.Timeout)), "EXPRIED", fmt.Sprint(uint32(c.ExpriedFlag)<<16|uint32(c.Expried)))
+	if c.Count != 0 { // a zero field is the default: left out, as a client would (the converter must not remember an earlier command's)
+		args = append(args, "COUNT", fmt.Sprint(uint32(c.Count)+1))
+	}
+	if c.Rcount != 0 {
+		args = append(args, "RCOUNT", fmt.Sprint(uint32(c.Rcount)+1))
+	}
 	return wire.Resp(args...)
 }
 
